@@ -5,6 +5,8 @@ import json, glob, os, re
 rows = []
 for d in sorted(glob.glob("seeded/*/")):
     name = os.path.basename(d.rstrip("/"))
+    if not os.path.exists(d + "patch.diff"):
+        continue  # the author delivered no change (meta.json says what was tried)
     meta = {}
     try:
         meta = json.load(open(d + "meta.json"))
